@@ -133,7 +133,7 @@ LAYOUTS = {
     'one6_list': ([6], 'list'), 'one6_bare': ([6], 'bare'), 'one3_tuple': ([3], 'tuple'),
     'two_2+3': ([2, 3], 'list'), 'two_3+3': ([3, 3], 'list'), 'arr3+len1': ([3, 1], 'list'),
     'len1+arr2': ([1, 2], 'list'), 'len1+len1': ([1, 1], 'list'), 'three_1+2+3': ([1, 2, 3], 'list'),
-    'two_4+2_tuple': ([4, 2], 'tuple'),
+    'two_4+2_tuple': ([4, 2], 'tuple'), 'four_1+2+1+2': ([1, 2, 1, 2], 'list'), 'three_3+1+2_tuple': ([3, 1, 2], 'tuple'),
 }
 
 
@@ -437,7 +437,8 @@ RUNS_T = [[tol, stop] for tol in (1e-2, 1e-4, 1e-6, 1e-8) for stop in ('off', 'd
 MULTI = [k for k, v in LAYOUTS.items() if len(v[0]) > 1]
 
 Q_AXES = dict(
-    layouts=['one1_bare', 'one2_list', 'one3_bare', 'one6_list', 'two_2+3', 'arr3+len1', 'len1+arr2'],
+    layouts=['one1_bare', 'one2_list', 'one3_bare', 'one6_list', 'two_2+3', 'arr3+len1', 'len1+arr2', 'three_1+2+3',
+             'four_1+2+1+2'],
     kind_c=[['inv', 'asc'], ['inv', 'wide'], ['comp', 'asc']],
     starts=['u03', 'hi', 'mixed'],
     bounds=['default', 'scalar', 'vec'],
